@@ -437,3 +437,157 @@ func c08DatapointCounted(c *core.Ctx, r *core.Report) {
 	}
 	r.Floor("PAIR", "datapoint stores in the metrics writer", n, 4)
 }
+
+// c08StagingBuffersStartEmpty — clause STAGING.  A bytes.Buffer kept in a struct of the metrics writer across calls
+// (a staging buffer reused from one block rotation to the next) that the pinned tree does not have is new long-lived
+// state.  In every function that appends to such a buffer, either a Reset / Truncate of that buffer precedes the first
+// append on every path, or no return is reachable after an append without passing one: a buffer that is emptied on the
+// success path only still holds the image of a failed attempt when the rotation is retried, and the reader then takes
+// the series table from the stale image at the head of the file.
+func c08StagingBuffersStartEmpty(c *core.Ctx, r *core.Report) {
+	if c.Baseline == nil {
+		return
+	}
+	prefix := core.ModPath + "/pkg/segment/writer/metrics"
+	isBuffer := func(t types.Type) bool {
+		if p, ok := t.(*types.Pointer); ok {
+			t = p.Elem()
+		}
+		n, ok := t.(*types.Named)
+		return ok && n.Obj().Pkg() != nil && n.Obj().Pkg().Path() == "bytes" && n.Obj().Name() == "Buffer"
+	}
+	isNewField := func(fa *ssa.FieldAddr) (*types.Var, bool) {
+		f := core.FieldOfAddr(fa)
+		if f == nil || f.Pkg() == nil || !isBuffer(f.Type()) {
+			return nil, false
+		}
+		pt, ok := fa.X.Type().Underlying().(*types.Pointer)
+		if !ok {
+			return nil, false
+		}
+		named, ok := pt.Elem().(*types.Named)
+		if !ok {
+			return nil, false
+		}
+		rel := strings.TrimPrefix(strings.TrimPrefix(f.Pkg().Path(), core.ModPath), "/")
+		base, ok := c.Baseline[rel]
+		if !ok {
+			return nil, false
+		}
+		if _, known := base[named.Obj().Name()+"."+f.Name()]; known {
+			return nil, false
+		}
+		if c.BaseName(f) != f.Name() {
+			return nil, false
+		}
+		return f, true
+	}
+	fieldOfRecv := func(v ssa.Value) *types.Var {
+		switch x := v.(type) {
+		case *ssa.FieldAddr:
+			if f, ok := isNewField(x); ok {
+				return f
+			}
+		case *ssa.UnOp:
+			if fa, ok := x.X.(*ssa.FieldAddr); ok && x.Op == token.MUL {
+				if f, ok := isNewField(fa); ok {
+					return f
+				}
+			}
+		}
+		return nil
+	}
+	for _, fn := range c.RepoFunctions() {
+		if !strings.HasPrefix(core.FnPkgPath(fn), prefix) || fn.Blocks == nil {
+			continue
+		}
+		writes := map[*types.Var][]ssa.Instruction{}
+		resets := map[*types.Var][]ssa.Instruction{}
+		for _, ci := range core.CallsIn(fn) {
+			f := core.CalleeFunc(ci)
+			if f == nil || f.Pkg() == nil || f.Pkg().Path() != "bytes" || len(ci.Common().Args) == 0 {
+				continue
+			}
+			fld := fieldOfRecv(ci.Common().Args[0])
+			if fld == nil {
+				continue
+			}
+			switch f.Name() {
+			case "Write", "WriteByte", "WriteString", "WriteRune", "ReadFrom":
+				writes[fld] = append(writes[fld], ci)
+			case "Reset", "Truncate":
+				resets[fld] = append(resets[fld], ci)
+			}
+		}
+		// a deferred Reset (directly, or in a deferred closure) empties the buffer on every exit
+		deferredReset := map[*types.Var]bool{}
+		deferredAny := false
+		for _, b := range fn.Blocks {
+			for _, in := range b.Instrs {
+				df, ok := in.(*ssa.Defer)
+				if !ok {
+					continue
+				}
+				if f := core.CalleeFunc(df); f != nil && f.Pkg() != nil && f.Pkg().Path() == "bytes" && (f.Name() == "Reset" || f.Name() == "Truncate") && len(df.Call.Args) > 0 {
+					if fld := fieldOfRecv(df.Call.Args[0]); fld != nil {
+						deferredReset[fld] = true
+					}
+				}
+				if mc, ok := df.Call.Value.(*ssa.MakeClosure); ok {
+					if cl, ok := mc.Fn.(*ssa.Function); ok {
+						for _, cj := range core.CallsIn(cl) {
+							if f := core.CalleeFunc(cj); f != nil && f.Pkg() != nil && f.Pkg().Path() == "bytes" && (f.Name() == "Reset" || f.Name() == "Truncate") {
+								deferredAny = true
+							}
+						}
+					}
+				}
+			}
+		}
+		for fld, ws := range writes {
+			construct := fmt.Sprintf("%s:staging-buffer(%s)-starts-empty", shortFn(fn), fld.Name())
+			if deferredReset[fld] || deferredAny {
+				r.OK("PAIR", construct, c.Pos(ws[0].Pos()), "emptied by a deferred Reset on every exit")
+				continue
+			}
+			// reset before the first append on every path?
+			atEntry := true
+			for _, w := range ws {
+				dominated := false
+				for _, rs := range resets[fld] {
+					if core.InstrDominates(rs, w) {
+						dominated = true
+					}
+				}
+				if !dominated {
+					atEntry = false
+				}
+			}
+			if atEntry {
+				r.OK("PAIR", construct, c.Pos(ws[0].Pos()), "emptied before the first append")
+				continue
+			}
+			isReset := map[ssa.Instruction]bool{}
+			for _, rs := range resets[fld] {
+				isReset[rs] = true
+			}
+			var dirty *ssa.Return
+			for _, w := range ws {
+				core.WalkForward(fn, w, func(in ssa.Instruction) bool {
+					if isReset[in] {
+						return false
+					}
+					if ret, ok := in.(*ssa.Return); ok && dirty == nil {
+						dirty = ret
+					}
+					return true
+				})
+			}
+			if dirty != nil {
+				r.Violation("PAIR", construct, c.Pos(dirty.Pos()), "a buffer kept across calls is appended to and the function can return without emptying it (it is emptied on some paths only, and not before the first append): after a failed attempt the retry appends a second image behind the stale one, and the file's reader takes its tables from the stale head — series added between the two attempts are missing from the rotated block")
+			} else {
+				r.OK("PAIR", construct, c.Pos(ws[0].Pos()), "every return after an append passes a Reset")
+			}
+		}
+	}
+}
